@@ -12,7 +12,7 @@ From Coq Require Import ZArith List String Bool.
 From Gigue Require Import Types Bits Isa Enc GenTables Builder BuilderTies Samplers Generator Machine MachineLemmas
   SplitProofs FragProofs GenLemmas ImageSem CtorSpec C12Defs C12Proofs GenWF GenWFProps
   BodyExec FrameExec CodeMem GenWF5 GenWF6 CallFrame MethodContract CallFrameRimi MethodContractRimi SaveRestore TrampExec TrampsInv TrampStubs WholeImage Loader
-  WholeImageRimi LoaderRimi Witness LoaderWitness LoaderWitnessRimi.
+  WholeImageRimi LoaderRimi RimiFullExec WholeImageRimiFull LoaderRimiFull Witness LoaderWitness LoaderWitnessRimi.
 Import ListNotations.
 Open Scope Z_scope.
 
@@ -103,6 +103,21 @@ Theorem C09_rimiss_whole_image : forall c script img,
       rmem_frame c L s0 s' (stk_hi L - rNtot c img) (stk_hi L) (ss_hi L - SSmax img) (ss_hi L) /\ dom s' = 0 /\ cfi s' = [].
 Proof. exact rimiss_image_from_files. Qed.
 
+(* the same for RIMI full, where the interpreter's return point is on the shadow stack
+   as well (one more slot: FSW = SSmax + 8) *)
+Theorem C09_rimifull_whole_image : forall c script img,
+  successful c script img -> c_variant c = GRimiFull -> c_data_reg c <> 6 ->
+  forall L s0, Init c img (fNtot c img) L s0 -> code_lo L = int_start_al c ->
+    code_hi L - code_lo L < 2147483648 - 2048 -> pics_encodable img ->
+    FSW img <= zlen (im_ss img) ->
+    (forall r o, In (r, o) int_slots -> 0 <= rget s0 r < W64) ->
+    exists s' eh, map fst eh = im_elements img /\ Forall (fun x => fhit_ok (fst x) (snd x)) eh /\
+      run (gv c) L (fimage_steps img eh) s0 = (Next s', fimage_steps img eh) /\ pc s' = halt_at L /\
+      (forall r, 0 <= r -> wr c r = false -> ~ fclob c r -> rget s' r = rget s0 r) /\
+      rget s' 28 = ss_hi L /\
+      rmem_frame c L s0 s' (stk_hi L - fNtot c img) (stk_hi L) (ss_hi L - FSW img) (ss_hi L) /\ dom s' = 0 /\ cfi s' = [].
+Proof. exact rimifull_image_from_files. Qed.
+
 Theorem C09_nonvacuous :
   (exists img, successful wcfg_rimiss wscript_rimiss img) /\ (exists img, successful wcfg_rimifull wscript_rimifull img).
 Proof. exact (conj witness_rimiss witness_rimifull). Qed.
@@ -147,6 +162,7 @@ Print Assumptions C09_no_ra_on_main_stack.
 Print Assumptions C09_every_rimi_method_contract_partial.
 Print Assumptions C09_return_target_is_shadow_slot_partial.
 Print Assumptions C09_rimiss_whole_image.
+Print Assumptions C09_rimifull_whole_image.
 Print Assumptions C09_nonvacuous.
 Print Assumptions C09_shadow_discipline_partial.
 Print Assumptions C09_registers_reserved_partial.
